@@ -15,7 +15,7 @@ use pico::{Database, SourceId};
 use prelude::Postfix;
 
 use crate::{
-    read_files::{read_file, read_files_in_folder},
+    read_files::{is_source_file_path, read_file, read_files_in_folder},
     watch::{ChangedFileKind, SourceEventKind, SourceFileEvent},
     write_artifacts::unable_to_do_something_at_path_diagnostic,
 };
@@ -138,14 +138,19 @@ fn handle_update_source_file<TCompilationProfile: CompilationProfile>(
 ) -> LocationFreeDiagnosticResult<()> {
     match event_kind {
         SourceEventKind::CreateOrModify(path) => {
-            create_or_update_iso_literals(db, path)?;
+            // Only the files that the initial directory walk reads are sources
+            if is_source_file_path(path) {
+                create_or_update_iso_literals(db, path)?;
+            }
         }
         SourceEventKind::Rename((source_path, target_path)) => {
             let source_file_path = relative_path_from_absolute_and_working_directory(
                 db.get_current_working_directory(),
                 source_path,
             );
-            if db.remove_iso_literal(source_file_path).is_some() {
+            db.remove_iso_literal(source_file_path);
+            // The target is a source whether or not the file was one under its old name
+            if is_source_file_path(target_path) {
                 create_or_update_iso_literals(db, target_path)?
             }
         }
